@@ -28,6 +28,8 @@ const DEVIATIONS: &[&str] = &[
     "outer-type-send-to-hub",
     "outer-type-out-of-range",
     "inner-type-unsupported",
+    "outer-type-dirty-high-bytes",
+    "inner-type-dirty-high-bytes",
     "origin-never-trusted",
     "origin-trust-removed",
     "unknown-token",
@@ -229,7 +231,7 @@ pub fn run(ctx: &Ctx, rep: &mut Report) {
             // ------------------------------------------------------------ deviations first
             let mut devs: Vec<&str> = DEVIATIONS.to_vec();
             rng.shuffle(&mut devs);
-            devs.truncate(11);
+            devs.truncate(12);
             for dev in devs {
                 if !alive {
                     break;
@@ -271,6 +273,19 @@ pub fn run(ctx: &Ctx, rep: &mut Report) {
                     "inner-type-unsupported" => {
                         let mut inner = conf.inner().encode();
                         inner[..32].copy_from_slice(&word_u(*rng.pick(&[2u128, 3, 4, 5, 77])));
+                        full(hub_wrap(4, &conf.origin, &inner))
+                    }
+                    "outer-type-dirty-high-bytes" => {
+                        // the low byte says receive-from-hub, higher bytes are not zero
+                        let mut p = payload.clone();
+                        let k = *rng.pick(&[0usize, 1, 15, 16, 29, 30]);
+                        p[k] = *rng.pick(&[0x01u8, 0x80, 0xff]);
+                        full(p)
+                    }
+                    "inner-type-dirty-high-bytes" => {
+                        let mut inner = conf.inner().encode();
+                        let k = *rng.pick(&[0usize, 1, 15, 16, 29, 30]);
+                        inner[k] = *rng.pick(&[0x01u8, 0x80, 0xff]);
                         full(hub_wrap(4, &conf.origin, &inner))
                     }
                     "origin-never-trusted" => {
@@ -545,5 +560,5 @@ pub fn run(ctx: &Ctx, rep: &mut Report) {
     req.extend(KINDS.iter().map(|k| format!("conforming:{}", k)));
     rep.notes.insert("required".into(), json!(req));
     rep.notes.insert("token_mode".into(), json!("native"));
-    rep.notes.insert("rule".into(), json!("per universe 5 rounds: a conforming delivery (transfer to a service-deployed token, release of a locked canonical asset, transfer with data to a destination application, remote deploy; origin chain drawn from the currently trusted chains while one chain's trust flips between rounds) and, before it, 11 of 27 single deviations, each delivered at a checkpoint together with the approval that matches it in every other respect: never approved, approved for other payload / id / source address / contract, source chain or source address not the hub's, send-to-hub or out-of-range outer type, unsupported inner type, origin never trusted or no longer trusted, unknown token, undecodable recipient or minter, amounts 2^127 / 2^128-1 / 2^255, truncated / padded / non-canonical-offset payload, padded inner message, insufficient custody, failing application, deploy for a taken id or with empty name/symbol; then the conforming delivery (effects and consumption checked), the same delivery again, and again after re-approval. distinct = (conforming kind, deviation, outcome)"));
+    rep.notes.insert("rule".into(), json!("per universe 5 rounds: a conforming delivery (transfer to a service-deployed token, release of a locked canonical asset, transfer with data to a destination application, remote deploy; origin chain drawn from the currently trusted chains while one chain's trust flips between rounds) and, before it, 12 of 29 single deviations, each delivered at a checkpoint together with the approval that matches it in every other respect: never approved, approved for other payload / id / source address / contract, source chain or source address not the hub's, send-to-hub or out-of-range outer type, unsupported inner type, type words whose low byte is a supported tag but whose higher bytes are not zero, origin never trusted or no longer trusted, unknown token, undecodable recipient or minter, amounts 2^127 / 2^128-1 / 2^255, truncated / padded / non-canonical-offset payload, padded inner message, insufficient custody, failing application, deploy for a taken id or with empty name/symbol; then the conforming delivery (effects and consumption checked), the same delivery again, and again after re-approval. distinct = (conforming kind, deviation, outcome)"));
 }
